@@ -638,6 +638,11 @@ class SimOS(object):
     sep = "/"
     linesep = "\n"
     curdir = "."
+    pardir = ".."
+    extsep = "."
+    altsep = None
+    pathsep = ":"
+    name = "posix"
     error = OSError
     devnull = "/dev/null"
 
